@@ -264,7 +264,7 @@ class LiteralProvider(LoaderProvider, DumperProvider):
                 try:
                     if (type(data), data) in allowed_values_with_types:
                         return data
-                except TypeError:  # unhashable data can not be a member
+                except (TypeError, ArithmeticError):  # unhashable or incomparable (like Decimal('sNaN')) data can not be a member
                     pass
                 raise BadVariantLoadError(allowed_values_repr, data)
 
@@ -277,7 +277,7 @@ class LiteralProvider(LoaderProvider, DumperProvider):
                 try:
                     if data in allowed_values:
                         return data
-                except TypeError:  # unhashable data can not be a member
+                except (TypeError, ArithmeticError):  # unhashable or incomparable (like Decimal('sNaN')) data can not be a member
                     pass
                 raise BadVariantLoadError(allowed_values_repr, data)
 
